@@ -43,6 +43,8 @@ Inductive jr_ty (H : hier) (mx : nat) : ty -> ty -> Prop :=
 | jr_in_gen : forall k c a x y b, jr_ty H mx x y -> jr_ty H mx (TGen k c (a ++ x :: b)) (TGen k c (a ++ y :: b))
 | jr_in_tup : forall k c a x y b, jr_ty H mx x y -> jr_ty H mx (TTup k c (a ++ x :: b)) (TTup k c (a ++ y :: b))
 | jr_in_call : forall k c a x y b, jr_ty H mx x y -> jr_ty H mx (TCall k c (a ++ x :: b)) (TCall k c (a ++ y :: b))
+| jr_in_var : forall n sc hb a x y b, jr_ty H mx x y ->
+    jr_ty H mx (TVar n sc hb (a ++ x :: b)) (TVar n sc hb (a ++ y :: b))
 (* (1) JoinTypes / UnionType() *)
 | jr_same_members : forall ts ts', same_members ts ts' -> jr_ty H mx (TUnion ts) (TUnion ts')
 | jr_one_member : forall x, jr_ty H mx (TUnion [x]) x
@@ -71,7 +73,11 @@ Inductive jr_ty (H : hier) (mx : nat) : ty -> ty -> Prop :=
 | jr_lookup_name : forall k c, jr_ty H mx (TName k c) (TName KClass c)
 | jr_lookup_gen : forall k c ps, jr_ty H mx (TGen k c ps) (TGen KClass c ps)
 | jr_lookup_tup : forall k c ps, jr_ty H mx (TTup k c ps) (TTup KClass c ps)
-| jr_lookup_call : forall k c ps, jr_ty H mx (TCall k c ps) (TCall KClass c ps).
+| jr_lookup_call : forall k c ps, jr_ty H mx (TCall k c ps) (TCall KClass c ps)
+(* (6) MergeTypeParameters (remove_mutable only): a function type parameter that occurs in a union with class
+   type parameters is replaced by (the union of) unbounded class type parameters *)
+| jr_tparam_merged : forall t cps, is_var t = true -> cps <> [] -> Forall unbounded_var cps ->
+    jr_ty H mx t (TUnion cps).
 
 Definition jr_omut (H : hier) (mx : nat) (a b : option ty) : Prop :=
   match a, b with
@@ -109,7 +115,8 @@ Definition jr_sig (H : hier) (mx : nat) (cls : option cid) (s s' : sig) : Prop :
   jr_ty H mx (s_ret s) (s_ret s') /\ jr_exc H mx (s_exc s) (s_exc s').
 
 Definition same_parameters (s1 s2 : sig) : Prop :=
-  s_params s1 = s_params s2 /\ s_star s1 = s_star s2 /\ s_starstar s1 = s_starstar s2.
+  s_params s1 = s_params s2 /\ s_star s1 = s_star s2 /\ s_starstar s1 = s_starstar s2 /\
+  s_template s1 = s_template s2.
 
 Inductive jr_sigs (H : hier) (mx : nat) (cls : option cid) : list sig -> list sig -> Prop :=
 | js_trans : forall a b c, jr_sigs H mx cls a b -> jr_sigs H mx cls b c -> jr_sigs H mx cls a c
@@ -120,6 +127,7 @@ Inductive jr_sigs (H : hier) (mx : nat) (cls : option cid) : list sig -> list si
 | js_merged : forall a s1 b s2 c, same_parameters s1 s2 ->
     jr_sigs H mx cls (a ++ s1 :: b ++ s2 :: c)
       (a ++ mkSig (s_params s1) (s_star s1) (s_starstar s1) (TUnion [s_ret s1; s_ret s2]) (s_exc s1 ++ s_exc s2)
+                (s_template s1)
          :: b ++ c).
 
 Definition jr_func (H : hier) (mx : nat) (cls : option cid) (f f' : func) : Prop :=
